@@ -50,9 +50,11 @@ pub fn skips(p: f64, seed: u64, k: usize) -> Vec<i64> {
         .collect()
 }
 
-pub fn gnp_request(n: i64, pnum: i64, pden: u64, directed: bool, seed: u64) -> String {
+pub fn gnp_request(n: i64, pnum: i64, pden: u64, directed: bool, seed: u64) -> String { gnp_request_k(n, pnum, pden, directed, seed, 2600) }
+
+pub fn gnp_request_k(n: i64, pnum: i64, pden: u64, directed: bool, seed: u64, kmax: usize) -> String {
     let p = pnum as f64 / pden as f64;
-    let k = if pnum <= 0 || pnum as u64 >= pden { 0 } else { ((n.max(0) * n.max(0) + n.max(0) + 5) as usize).min(2600) };
+    let k = if pnum <= 0 || pnum as u64 >= pden { 0 } else { ((n.max(0) * n.max(0) + n.max(0) + 5) as usize).min(kmax) };
     let sk = skips(p, seed, k);
     format!("gnp {} {} {} {} {} {}{}", n, pnum, pden, directed as u8, seed, sk.len(), sk.iter().map(|x| format!(" {}", x)).collect::<String>())
 }
@@ -109,6 +111,15 @@ pub fn gen_case(rng: &mut Rng, family: &str, profile: &str, size: usize) -> Stri
     match family {
         "complete" => format!("complete {} {}", rng.range(0, size as i64), rng.below(2)),
         "karate" => "karate".to_string(),
+        "gnp" if profile == "sparse" => {
+            // a handful of expected edges: every skip crosses many rows of the slot table (long-skip code paths, the last
+            // row, the diagonal), n 2..=size, p = c / n^2 with c in 0.25 .. 6
+            let n = rng.range(2, size as i64);
+            let directed = rng.chance(65);
+            let c4 = rng.range(1, 24);           // c = c4 / 4
+            let pden = (4 * n * n) as u64;
+            gnp_request_k(n, c4.min(pden as i64 - 1).max(1), pden, directed, rng.below(1_000_000), 80)
+        }
         "gnp" => {
             let n = if profile == "large" { rng.range(41, 300) } else { rng.range(0, size as i64) };
             let directed = rng.chance(50);
